@@ -25,9 +25,9 @@ import (
 var v17OrigCMC chan ClientUpdate
 
 type v17Scenario struct {
-	name    string
-	run     func(x *vexp.X, sc *v17Scenario) (*vhook.Sched, func())
-	bound   int
+	name  string
+	run   func(x *vexp.X, sc *v17Scenario) (*vhook.Sched, func())
+	bound int
 }
 
 // the status consumer does what RunClientUpdater does with every update: it serialises the state
@@ -165,6 +165,16 @@ type vTicker struct{ C chan time.Time }
 func (t *vTicker) Stop() {}
 
 var v17Ticks chan time.Time
+
+// vTickAlways stands in for the once-per-second / once-per-ten-seconds tickers of PrepareRun: its channel is
+// closed, so that every pass through ProcessSegments / HandleExternalTriggers / HandleDataDrop takes the
+// "ticker fired" branch (the periodic NUMBERWRITTEN and EXTERNALTRIGGER messages, the file flushes) — which an
+// execution lasting milliseconds would otherwise never reach. Deterministic, unlike a fast real ticker.
+func vTickAlways(d time.Duration) *time.Ticker {
+	c := make(chan time.Time)
+	close(c)
+	return &time.Ticker{C: c}
+}
 
 func vNewTicker(d time.Duration) *vTicker { return &vTicker{C: v17Ticks} }
 
